@@ -659,7 +659,9 @@ impl SolarMonth {
     let y: isize = self.get_year();
     let mut l: Vec<SolarDay> = Vec::new();
     for i in 1..self.get_day_count() + 1 {
-      l.push(SolarDay::from_ymd(y, self.month, i));
+      // 1582年10月只有21天：1-4日、15-31日
+      let d: usize = if 1582 == y && 10 == self.month && i > 4 { i + 10 } else { i };
+      l.push(SolarDay::from_ymd(y, self.month, d));
     }
     l
   }
